@@ -429,7 +429,7 @@ def run_check(prop, tier='quick', seed=0, replay=None):
             if mm.signature in known_sigs:
                 print('KNOWN-FINDING: property=%s %s' % (prop.id, known_sigs[mm.signature]['description']))
                 return 0
-            print('VIOLATION property=%s replay=%s' % (prop.id, replay))
+            print('VIOLATION property=%s replay=%s%s' % (prop.id, replay, ' no-failing-input-found' if mm.relation == 'model-only' else ''))
             return 1
         finally:
             prop.teardown(ctx)
@@ -512,7 +512,9 @@ def run_check(prop, tier='quick', seed=0, replay=None):
                 case2, mm2 = case, mm
             n_viol += 1
             path = write_replay(prop, seed, n_viol, case2, mm2)
-            violations.append((path, ''))
+            # a disagreement that only breaks the model/code tie (the property's own observable still holds on this
+            # input) is reported as a correspondence that no longer checks, not as a counterexample
+            violations.append((path, ' no-failing-input-found' if mm2.relation == 'model-only' else ''))
             print('  mismatch: %s\n    case : %s\n    impl : %s\n    model: %s' % (
                 mm2.what, canon(case2)[:1500], canon(mm2.impl)[:800], canon(mm2.model)[:800]))
             if n_viol >= 3:
@@ -538,7 +540,7 @@ def run_check(prop, tier='quick', seed=0, replay=None):
 
     # ---- 4. evidence -------------------------------------------------------------------------
     n_obl = len(lean.obligations) + 1 + (1 if ext else 0)
-    n_dis = len(lean.discharged) + (0 if [v for v in violations if not v[1]] else 1) \
+    n_dis = len(lean.discharged) + (0 if n_viol else 1) \
         + (1 if (ext and ext.get('status') == 'ok') else 0)
     ev = {
         'property_id': prop.id, 'tier': tier, 'seed': seed, 'level': 'proof',
